@@ -124,6 +124,7 @@ const R_NOTEXT: u64 = 2; // a valid receipt that does not extend the subscriptio
 const R_GARBAGE: u64 = 3;
 const R_APIERR: u64 = 4;
 const R_NOTEXT_SLOTS: u64 = 5; // a valid receipt with a later expiry but no more slots than the client knows
+const R_NOTEXT_EXPIRY: u64 = 6; // a valid receipt with more slots but the expiry the client already knows
 const C_DOWN: u64 = 20; // not listening (connection refused) — never logged by the tower, used in scripts only
 
 struct LogEntry {
@@ -246,13 +247,16 @@ async fn handle_conn(mut s: tokio::net::TcpStream, st: Arc<Mutex<TowerState>>, i
             let user_id = serde_json::from_slice::<msgs::RegisterRequest>(body).ok().and_then(|r| UserId::from_slice(&r.user_id).ok());
             let mut vals = (0, 0, 0);
             reply = Some(match (cls, user_id) {
-                (R_GOOD, Some(u)) | (R_BADSIG, Some(u)) | (R_NOTEXT, Some(u)) | (R_NOTEXT_SLOTS, Some(u)) => {
+                (R_GOOD, Some(u)) | (R_BADSIG, Some(u)) | (R_NOTEXT, Some(u)) | (R_NOTEXT_SLOTS, Some(u)) | (R_NOTEXT_EXPIRY, Some(u)) => {
                     if cls == R_GOOD {
                         g.gen += 1;
                     }
-                    let (slots, start, mut expiry) = sub_values(g.gen);
+                    let (mut slots, start, mut expiry) = sub_values(g.gen);
                     if cls == R_NOTEXT_SLOTS {
                         expiry += 50;
+                    }
+                    if cls == R_NOTEXT_EXPIRY {
+                        slots += 5;
                     }
                     vals = (slots, start, expiry);
                     let mut r = RegistrationReceipt::new(u, slots, start, expiry);
@@ -887,11 +891,12 @@ fn families() -> Vec<Scenario> {
     // 7: subscription error, renewal by the retrier, delivery
     v.push(fam(7, 1, o, vec![(K_REG, 0, R_GOOD), (K_MODE, 0, A_SUBERR), (K_REV, 0, 0), (K_MODE, 0, A_ACCEPT), (K_SETTLE, 0, 0), (K_REV, 1, 0), (K_SETTLE, 0, 0)]));
     // 8: subscription error and the renewal is refused in every way
-    for cls in [R_BADSIG, R_NOTEXT, R_NOTEXT_SLOTS, R_GARBAGE, R_APIERR] {
+    for cls in [R_BADSIG, R_NOTEXT, R_NOTEXT_SLOTS, R_NOTEXT_EXPIRY, R_GARBAGE, R_APIERR] {
         v.push(fam(8, 1, o, vec![(K_REG, 0, R_GOOD), (K_MODE, 0, A_SUBERR), (K_REV, 0, 0), (K_SETTLE, 0, 0), (K_MODE, 0, cls + 100), (K_RETRY, 0, 0),
                                  (K_SETTLE, 0, 0), (K_RETRY, 0, 0), (K_SETTLE, 0, 0)]));
     }
     // 9: registration gate: every reply class for a first registration and for a renewal
+    v.push(fam(9, 1, o, vec![(K_REG, 0, R_NOTEXT_EXPIRY), (K_REG, 0, R_NOTEXT_EXPIRY), (K_REV, 0, 0), (K_REG, 0, R_GOOD), (K_REG, 0, R_NOTEXT_EXPIRY), (K_REV, 1, 0), (K_SETTLE, 0, 0)]));
     v.push(fam(9, 1, o, vec![(K_REG, 0, R_NOTEXT_SLOTS), (K_REG, 0, R_NOTEXT_SLOTS), (K_REV, 0, 0), (K_REG, 0, R_NOTEXT), (K_REG, 0, R_GOOD), (K_REG, 0, R_NOTEXT_SLOTS), (K_SETTLE, 0, 0)]));
     for cls in [R_BADSIG, R_GARBAGE, R_APIERR, C_DOWN] {
         v.push(fam(9, 1, o, vec![(K_REG, 0, cls), (K_REV, 0, 0), (K_REG, 0, R_GOOD), (K_REG, 0, cls), (K_REG, 0, R_NOTEXT), (K_REV, 1, 0), (K_REG, 0, R_GOOD), (K_SETTLE, 0, 0)]));
@@ -982,7 +987,7 @@ fn random_scenario(rng: &mut Rng) -> Scenario {
             57..=71 => steps.push((K_SETTLE, 0, 0)),
             72..=77 => steps.push((K_RETRY, t, 0)),
             78..=81 => steps.push((K_ABANDON, t, 0)),
-            82..=87 => steps.push((K_REG, t, *rng.pick(&[R_GOOD, R_GOOD, R_BADSIG, R_NOTEXT, R_NOTEXT_SLOTS, R_GARBAGE, R_APIERR]))),
+            82..=87 => steps.push((K_REG, t, *rng.pick(&[R_GOOD, R_GOOD, R_BADSIG, R_NOTEXT, R_NOTEXT_SLOTS, R_NOTEXT_EXPIRY, R_GARBAGE, R_APIERR]))),
             88..=92 => {
                 if rng.chance(1, 2) {
                     // a notification whose handling races with the kill
